@@ -12,8 +12,14 @@ import (
 	"github.com/elys-network/elys/x/perpetual/types"
 )
 
-func (k Keeper) CheckAndLiquidateUnhealthyPosition(ctx sdk.Context, mtp *types.MTP, pool types.Pool, ammPool ammtypes.Pool, baseCurrency string) error {
-	var err error
+func (k Keeper) CheckAndLiquidateUnhealthyPosition(parentCtx sdk.Context, mtp *types.MTP, pool types.Pool, ammPool ammtypes.Pool, baseCurrency string) (err error) {
+	// Process the position on a cached context: a failure midway must not leave partial effects behind
+	ctx, write := parentCtx.CacheContext()
+	defer func() {
+		if err == nil {
+			write()
+		}
+	}()
 
 	// update mtp take profit liabilities
 	// calculate mtp take profit liabilities, delta x_tp_l = delta y_tp_c * current price (take profit liabilities = take profit custody * current price)
@@ -78,12 +84,18 @@ func (k Keeper) CheckAndLiquidateUnhealthyPosition(ctx sdk.Context, mtp *types.M
 	return nil
 }
 
-func (k Keeper) CheckAndCloseAtStopLoss(ctx sdk.Context, mtp *types.MTP, pool types.Pool, baseCurrency string) error {
+func (k Keeper) CheckAndCloseAtStopLoss(parentCtx sdk.Context, mtp *types.MTP, pool types.Pool, baseCurrency string) (err error) {
+	// Process the position on a cached context: a failure or a recovered panic midway must not leave partial effects behind
+	ctx, write := parentCtx.CacheContext()
 	defer func() {
 		if r := recover(); r != nil {
 			if msg, ok := r.(string); ok {
 				ctx.Logger().Error(msg)
 			}
+			err = fmt.Errorf("panic while closing position at stop loss: %v", r)
+		}
+		if err == nil {
+			write()
 		}
 	}()
 
@@ -124,12 +136,18 @@ func (k Keeper) CheckAndCloseAtStopLoss(ctx sdk.Context, mtp *types.MTP, pool ty
 	return nil
 }
 
-func (k Keeper) CheckAndCloseAtTakeProfit(ctx sdk.Context, mtp *types.MTP, pool types.Pool, baseCurrency string) error {
+func (k Keeper) CheckAndCloseAtTakeProfit(parentCtx sdk.Context, mtp *types.MTP, pool types.Pool, baseCurrency string) (err error) {
+	// Process the position on a cached context: a failure or a recovered panic midway must not leave partial effects behind
+	ctx, write := parentCtx.CacheContext()
 	defer func() {
 		if r := recover(); r != nil {
 			if msg, ok := r.(string); ok {
 				ctx.Logger().Error(msg)
 			}
+			err = fmt.Errorf("panic while closing position at take profit: %v", r)
+		}
+		if err == nil {
+			write()
 		}
 	}()
 
